@@ -41,19 +41,6 @@ def search(rng, tier, disagreeing):
     return [gen(rng, "thorough") for _ in range(1500)]
 
 
-def same_second_rotations(toks):
-    """two events that can rotate (a write, a trigger, a start) not separated by a clock tick"""
-    n = 0
-    for t in toks:
-        if t.startswith("K:") and not t.startswith("K:0"):
-            n = 0
-        elif t[0] in "WTB":
-            n += 1
-            if n >= 2:
-                return True
-    return False
-
-
 def classify(body, impl, verdict):
     toks = body.split(" ; ", 1)[1].split(" ")
     cfgs = [t[2:].split(",") for t in toks if t.startswith("B:")]
@@ -61,7 +48,7 @@ def classify(body, impl, verdict):
     if c[3] == "~" and c[8][0] in "gb":
         return "no-suffix-nothing-is-compressed"
     ts_naming = c[7].split(".")[0] in ("ts", "tsd", "cu")
-    if ts_naming and c[3] != "~" and bytes.fromhex(c[3]) > b"restart-" and same_second_rotations(toks):
+    if ts_naming and c[3] != "~" and bytes.fromhex(c[3]) > b"restart-" and g.same_second_rotations(toks):
         return "suffix-sorts-after-restart-siblings"
     naming = c[7].split(".")
     direct_ts = naming[0] == "tsd" or (naming[0] == "cu" and naming[1] == "~")
